@@ -394,3 +394,47 @@ Proof.
     rewrite !Hix by lia. reflexivity.
   - rewrite map_map. apply map_ext_in. intros p Hin. apply Hix. specialize (Tpoints p Hin). lia.
 Qed.
+
+(* ---------------------------------------------------------------------------------------------- *)
+(* what [expected] says, spelled out: as many instructions as the body has, the k-th being the k-th
+   instruction of the body, labelled iff some instruction or table refers to k *)
+Lemma attach_idx_length : forall cnt k fs j, length (attach_idx k cnt fs j) = cnt.
+Proof.
+  induction cnt as [|c IH]; intros k fs j; [reflexivity|]. cbn [attach_idx].
+  destruct fs as [|f fs]; [cbn [length]; rewrite IH; reflexivity|].
+  destruct (Nat.eqb f k); cbn [length]; rewrite IH; reflexivity.
+Qed.
+
+Lemma zip3_nth {A B C} : forall (a : list A) (b : list B) (c : list C) k x y z,
+  nth_error a k = Some x -> nth_error b k = Some y -> nth_error c k = Some z ->
+  nth_error (zip3 a b c) k = Some (x, y, z).
+Proof.
+  induction a as [|a0 a IH]; intros b c k x y z Ha Hb Hc; [destruct k; discriminate|].
+  destruct b as [|b0 b]; [destruct k; discriminate|]. destruct c as [|c0 c]; [destruct k; discriminate|].
+  destruct k as [|k]; cbn [nth_error zip3] in *.
+  - injection Ha as ->. injection Hb as ->. injection Hc as ->. reflexivity.
+  - apply IH; assumption.
+Qed.
+Lemma zip3_length {A B C} : forall (a : list A) (b : list B) (c : list C),
+  length a = length b -> length b = length c -> length (zip3 a b c) = length a.
+Proof.
+  induction a as [|a0 a IH]; intros [|b0 b] [|c0 c] H1 H2; try discriminate; [reflexivity|].
+  cbn [zip3 length]. f_equal. apply IH; [cbn in H1; lia|cbn in H2; lia].
+Qed.
+
+Theorem expected_shape body t :
+  length (cs_insns (expected body t)) = length body /\
+  forall k i, nth_error body k = Some i ->
+    exists fr, nth_error (cs_insns (expected body t)) k = Some (mem_nat k (refs body t), fr, map_insn Some i).
+Proof.
+  unfold expected. cbn [cs_insns]. split.
+  - rewrite zip3_length; rewrite ?map_length, ?seq_length, ?attach_idx_length; reflexivity.
+  - intros k i Hk.
+    assert (Hlt : (k < length body)%nat) by (apply nth_error_Some; congruence).
+    destruct (nth_error (attach_idx 0 (length body) (t_frames t) 0) k) as [fr|] eqn:Ef.
+    2:{ apply nth_error_None in Ef. rewrite attach_idx_length in Ef. lia. }
+    exists fr. apply zip3_nth; [|exact Ef|].
+    + rewrite nth_error_map. rewrite (nth_error_nth' (seq 0 (length body)) 0%nat) by (rewrite seq_length; exact Hlt).
+      rewrite seq_nth by exact Hlt. reflexivity.
+    + rewrite nth_error_map, Hk. reflexivity.
+Qed.
